@@ -306,10 +306,14 @@ GV_CANARY("LocalNetwork_unknown_stdev entry");
    flag is true (obligation at the call site); its value is the ghost gv_wcoef_val.  Index / memory obligations of the
    element access are checked in unit network_update (vec_at, wcoef_res). */
 //@ contract LocalNetwork_wcoef_res
-__CPROVER_requires(__CPROVER_rw_ok(self, sizeof(*self)) && self == gv_net)
-__CPROVER_requires(self->tst_vyrovnani_)
-__CPROVER_assigns()
-__CPROVER_ensures(__CPROVER_return_value == gv_wcoef_val)
+__CPROVER_requires(__CPROVER_rw_ok(self, sizeof(*self)) && self == gv_net && gv_exc == 0 && NET_INV(self))
+__CPROVER_assigns(NET_STAGE_FRAME(self))
+__CPROVER_ensures(NET_INV(self))
+__CPROVER_ensures(gv_exc == 0 ==> (self->tst_vyrovnani_ && __CPROVER_return_value == gv_wcoef_val))
+/* when the call throws, C++ abandons the enclosing expression m_0()*sqrt(fabs(..)); the lowered C evaluates it and discards it: give it a harmless value */
+__CPROVER_ensures(gv_exc != 0 ==> __CPROVER_return_value == 0)
+__CPROVER_ensures(__CPROVER_old(self->tst_vyrovnani_) ==> (gv_exc == 0 && NET_FLAGS_UNCHANGED(self) && self->suma_pvv_ == __CPROVER_old(self->suma_pvv_) &&
+                   self->A.col_ == __CPROVER_old(self->A.col_) && self->A.row_ == __CPROVER_old(self->A.row_) && self->pocmer_ == __CPROVER_old(self->pocmer_)))
 
 //@ contract LocalNetwork_stdev_res
 __CPROVER_requires(STAT_PRE(self) && gv_sqrt_calls == 0)
